@@ -9,6 +9,8 @@ let runners : (string * (string -> string list -> string list list -> (string ->
   ("C02", Drv_c02.run);
   ("C06", Drv_c06.run);
   ("C16", Drv_c16.run);
+  ("C14", Drv_c14.run);
+  ("C15", Drv_c15.run);
   ("C19", Drv_c19.run);
   ("C20", Drv_c20.run);
   ("C07", Drv_c07.run);
